@@ -4,7 +4,7 @@
    Values are int64: equalities are modulo 2^64 (wrap64), exactly what Go's += computes. *)
 From Coq Require Import List NArith ZArith Bool.
 From Coq Require Import Permutation.
-From Qryn Require Import model.Pprof model.ProfTree model.ProfDiff model.ProfSql proofs.PprofProofs proofs.ProfTreeProofs proofs.ProfSqlProofs proofs.ProfDiffProofs proofs.ProfNestProofs model.ProfMerge proofs.ProfMergeProofs.
+From Qryn Require Import model.Pprof model.ProfTree model.ProfDiff model.ProfSql proofs.PprofProofs proofs.ProfTreeProofs proofs.ProfSqlProofs proofs.ProfDiffProofs proofs.ProfNestProofs model.ProfMerge proofs.ProfMergeProofs proofs.ProfDiffNestProofs.
 Import ListNotations.
 Open Scope Z_scope.
 
@@ -263,8 +263,7 @@ Proof. exact merge_children_aligned. Qed.
 Print Assumptions diff_alignment_keeps_weights.
 
 (* ... and the ticks of the diff are the sums of the inputs: left/right = the rows under the root of each side
-   (modulo 2^64), total = their sum, for any rows in any order.  (Nesting of the diff's bars is judged on every observed
-   diff by the boolean oracle dvalues_nest_b, not proved.) *)
+   (modulo 2^64), total = their sum, for any rows in any order. *)
 Theorem diff_ticks_are_sums : forall (limit : Z) (lrows rrows : list row) (lfs rfs : list (N * Z)),
   Z.of_nat (length lrows) <= limit -> Z.of_nat (length rrows) <= limit ->
   let o := compute_diff (merge_trie limit new_tree lrows lfs) (merge_trie limit new_tree rrows rfs) in
@@ -282,6 +281,44 @@ Theorem merged_profile_conserves : forall (eqb : list Z -> list Z -> bool) (n k 
   eqm (col_sum k (merge_samples eqb ps)) (sumZ (map (col_sum k) ps)).
 Proof. exact ProfMergeProofs.merged_profile_conserves. Qed.
 Print Assumptions merged_profile_conserves.
+
+(* Every level's bars of the DIFF view nest inside their parent's span, on the left and on the right side.  For two
+   trees that are good (tree_good: what flamegraph_nests_from_ingest derives from ingest), whose totals fit int64, whose
+   node ids are distinct under every parent key (true of every tree MergeTrie builds) and of which neither holds children
+   under an id the other has under a parent where it lacks it (no_orphans: true when node ids determine the parent across
+   both sides and every non-root parent key is a node): in the bars computeFlameGraphDiff lays out (mergeNodes alignment,
+   queue, absolute offsets) every bar of every level but the first lies, in both coordinate systems, inside the bar one
+   level up of the node it names as parent -- for whatever the loop emitted.  diff_gaps_reconstruct: its last pass (gaps
+   instead of offsets) loses nothing, the absolute spans are recovered from the emitted numbers as the check's oracle does. *)
+Theorem diff_levels_nest : forall t1 t2 : mtree,
+  tree_good t1 -> root_total t1 < two63 -> tree_good t2 -> root_total t2 < two63 ->
+  ids_nodup (m_nodes t1) -> ids_nodup (m_nodes t2) ->
+  no_orphans (m_nodes t1) (m_nodes t2) -> no_orphans (m_nodes t2) (m_nodes t1) ->
+  dnested (ds_levels (diff_bars t1 t2)).
+Proof. exact diff_levels_nest_trees. Qed.
+Print Assumptions diff_levels_nest.
+
+Theorem diff_gaps_reconstruct : forall (l : list dbar) (cl cr : Z),
+  (forall b, In b l -> 0 <= d_xl b /\ d_xl b + d_tl b < two63 /\ 0 <= d_tl b /\
+                       0 <= d_xr b /\ d_xr b + d_tr b < two63 /\ 0 <= d_tr b) ->
+  0 <= cl < two63 -> 0 <= cr < two63 ->
+  dabs_values 0 cl (relativise cl cr l) = map (fun b => (d_xl b, d_xl b + d_tl b)) l /\
+  dabs_values 3 cr (relativise cl cr l) = map (fun b => (d_xr b, d_xr b + d_tr b)) l.
+Proof. exact relativise_reconstructs. Qed.
+Print Assumptions diff_gaps_reconstruct.
+
+(* mergeNodes for ANY two Nodes maps: both results list the same node ids under every key, each side keeps its weight *)
+Theorem diff_merge_nodes_aligned : forall (n1 n2 : list (N * list tnode)) (k : N),
+  map t_id (children (fst (merge_nodes n1 n2)) k) = map t_id (children (snd (merge_nodes n1 n2)) k) /\
+  sum_total_of (children (fst (merge_nodes n1 n2)) k) = sum_total_of (children n1 k) /\
+  sum_total_of (children (snd (merge_nodes n1 n2)) k) = sum_total_of (children n2 k).
+Proof. intros n1 n2 k. split; [apply merge_nodes_aligned|apply merge_nodes_sums]. Qed.
+Print Assumptions diff_merge_nodes_aligned.
+
+Example diff_levels_nest_applies :
+  tree_good ex_tree /\ root_total ex_tree < two63 /\ ids_nodup (m_nodes ex_tree) /\
+  no_orphans (m_nodes ex_tree) (m_nodes ex_tree) /\ length (ds_levels (diff_bars ex_tree ex_tree)) = 5%nat.
+Proof. exact ex_diff_hypotheses. Qed.
 
 (* ------------------------------------------------------------------------------------------------
    levels_nest.  For a tree with non-negative self and total values and exact conservation under every
